@@ -20,6 +20,8 @@ import PygProofs.Lemmas.DRangeMonth
 import PygProofs.Lemmas.DRangeBump
 import PygProofs.Lemmas.DRangeBday
 import PygProofs.Props.C09
+import PygModel.DateRange
+import PygProofs.Lemmas.ResDec
 
 namespace Pyg.Props.C10
 open Pyg Pyg.DRange
@@ -1420,5 +1422,292 @@ OverflowError on the real code) -/
 example : (Bump.MAXUS - 7 * DAY) + DAY * 7 = Bump.MAXUS ∧
     drange (Bump.MAXUS - 7 * DAY) (Bump.MAXUS - DAY) (.td DAY) = .ok [Bump.MAXUS - 7 * DAY, Bump.MAXUS - 6 * DAY,
       Bump.MAXUS - 5 * DAY, Bump.MAXUS - 4 * DAY, Bump.MAXUS - 3 * DAY, Bump.MAXUS - 2 * DAY, Bump.MAXUS - DAY] := ⟨by decide, by rfl⟩
+
+/-! ### round k3: `date_range`, the endpoint resolution `drange` begins with (anchor _drange.py:210-264; model PygModel/DateRange.lean)
+
+An endpoint is `None`, a bump or a date.  The theorems say, through the returned PAIR, which instant each endpoint denotes: a bump
+at the END is applied to the START when that is a date and to today otherwise; a bump at the START is applied to the END when that is
+a date and to today otherwise; only an open end (`t1 = None`) sorts the pair; `today` matters exactly when one of these rules names it.
+`bumpOne` is the C09 model of a single `dt_bump` argument. -/
+
+open Pyg.DateRange Pyg.Bump in
+/-- two dates: the pair AS GIVEN (not sorted: `drange` decides the direction from it), whatever today is -/
+theorem dateRange_dates (today a b : Int) : dateRange today (.date a) (.date b) = .ok (a, b) := rfl
+
+open Pyg.DateRange Pyg.Bump in
+/-- … so `drange(t0, t1, bump)` with two dates is the enumeration from these instants: all the `drange` theorems of this file are
+about the function the caller calls -/
+theorem drangeE_dates (today a b : Int) (bump : DRange.Bump) : drangeE today (.date a) (.date b) bump = drange a b bump := rfl
+
+open Pyg.DateRange Pyg.Bump in
+/-- a date and a bump (`drange(2000, '10b', ..)`): the range runs from the date to the bump applied TO THE DATE, whatever today is -/
+theorem dateRange_date_bump (today t0 : Int) (b : BumpArg) (p : Int × Int) :
+    dateRange today (.date t0) (.bump b) = .ok p ↔ p.1 = t0 ∧ bumpOne t0 b = .ok p.2 := by
+  unfold dateRange
+  simp only []
+  rw [C09.dtBump_single]
+  cases h : bumpOne t0 b with
+  | error e => simp [Except.map]
+  | ok r =>
+    simp only [Except.map, Except.ok.injEq]
+    constructor
+    · intro h; subst h; exact ⟨rfl, rfl⟩
+    · intro ⟨h1, h2⟩; cases p; simp_all
+
+open Pyg.DateRange Pyg.Bump in
+/-- a bump and a date (`drange('-10b', t1, ..)`): the range runs from the bump applied TO THE END DATE to that date -/
+theorem dateRange_bump_date (today t1 : Int) (b : BumpArg) (p : Int × Int) :
+    dateRange today (.bump b) (.date t1) = .ok p ↔ bumpOne t1 b = .ok p.1 ∧ p.2 = t1 := by
+  unfold dateRange
+  simp only []
+  rw [C09.dtBump_single]
+  cases h : bumpOne t1 b with
+  | error e => simp [Except.map]
+  | ok r =>
+    simp only [Except.map, Except.ok.injEq]
+    constructor
+    · intro h; subst h; exact ⟨rfl, rfl⟩
+    · intro ⟨h1, h2⟩; cases p; simp_all
+
+open Pyg.DateRange Pyg.Bump in
+/-- two bumps (`drange('-10b', '10b', ..)`): both applied to today, the pair not sorted -/
+theorem dateRange_bump_bump (today : Int) (b0 b1 : BumpArg) (p : Int × Int) :
+    dateRange today (.bump b0) (.bump b1) = .ok p ↔ bumpOne today b0 = .ok p.1 ∧ bumpOne today b1 = .ok p.2 := by
+  unfold dateRange
+  simp only []
+  rw [C09.dtBump_single, C09.dtBump_single]
+  cases h0 : bumpOne today b0 with
+  | error e => simp [Except.bind]
+  | ok r0 =>
+    cases h1 : bumpOne today b1 with
+    | error e => simp [Except.bind, Except.map]
+    | ok r1 =>
+      simp only [Except.bind, Except.map, Except.ok.injEq]
+      constructor
+      · intro h; subst h; exact ⟨rfl, rfl⟩
+      · intro ⟨h1, h2⟩; cases p; simp_all
+
+open Pyg.DateRange Pyg.Bump in
+/-- the docstring's `date_range(-100, 100) == [dt_bump(t, -100), dt_bump(t, 100)]`: integers below 1500 are day offsets from today -/
+theorem dateRange_int_int (today m n : Int) (hm : 0 ≤ today + m * DAYUS ∧ today + m * DAYUS < MAXUS)
+    (hn : 0 ≤ today + n * DAYUS ∧ today + n * DAYUS < MAXUS) :
+    dateRange today (.bump (.int m)) (.bump (.int n)) = .ok (today + m * DAYUS, today + n * DAYUS) := by
+  rw [dateRange_bump_bump]
+  simp only [bumpOne]
+  exact ⟨(checkRange_ok _ _).2 ⟨hm, rfl⟩, (checkRange_ok _ _).2 ⟨hn, rfl⟩⟩
+
+open Pyg.DateRange Pyg.Bump in
+/-- an open end (`t1 = None`): one member of the pair is today, the other is `TMIN` (no start either), the date, or the bump applied to
+today; with a start the pair is SORTED as `(min, max)` (so `drange(-10)` and `drange(10)` both run forward) -/
+theorem dateRange_open_end (today : Int) (e0 : Endpoint) (p : Int × Int) (h : dateRange today e0 .none = .ok p) :
+    match e0 with
+    | .none => p = (TMINUS, today)
+    | .date t0 => p = (min today t0, max today t0)
+    | .bump b0 => ∃ r, bumpOne today b0 = .ok r ∧ p = (min today r, max today r) := by
+  cases e0 with
+  | none => simp only [dateRange] at h; cases h; rfl
+  | date t0 =>
+    simp only [dateRange, sorted2] at h
+    split at h <;> cases h <;> simp only [Prod.mk.injEq] <;> omega
+  | bump b0 =>
+    simp only [dateRange] at h
+    rw [C09.dtBump_single] at h
+    cases hb : bumpOne today b0 with
+    | error e => rw [hb] at h; cases h
+    | ok r =>
+      rw [hb] at h
+      simp only [Except.map, sorted2] at h
+      split at h <;> cases h <;> refine ⟨r, hb, ?_⟩ <;> simp only [Prod.mk.injEq] <;> omega
+
+open Pyg.DateRange Pyg.Bump in
+/-- … hence ordered, with today as one end, whenever a start is given or today is not before 1900 -/
+theorem dateRange_open_end_sorted (today : Int) (e0 : Endpoint) (p : Int × Int) (h : dateRange today e0 .none = .ok p)
+    (hs : e0 ≠ .none ∨ TMINUS ≤ today) : p.1 ≤ p.2 ∧ (p.1 = today ∨ p.2 = today) := by
+  have h' := dateRange_open_end today e0 p h
+  cases e0 with
+  | none =>
+    simp only at h'; subst h'
+    rcases hs with hs | hs
+    · exact absurd rfl hs
+    · exact ⟨hs, Or.inr rfl⟩
+  | date t0 => simp only at h'; subst h'; simp only; omega
+  | bump b0 => obtain ⟨r, _, rfl⟩ := h'; simp only; omega
+
+open Pyg.DateRange Pyg.Bump in
+/-- `today` matters only where the rules above name it: with an end DATE, or with a start date and an end bump, the range is the same
+on every day it is asked for -/
+theorem dateRange_today_irrelevant (today today' : Int) (e0 e1 : Endpoint)
+    (h : (∃ t1, e1 = .date t1) ∨ ((∃ b1, e1 = .bump b1) ∧ ∃ t0, e0 = .date t0)) :
+    dateRange today e0 e1 = dateRange today' e0 e1 := by
+  rcases h with ⟨t1, rfl⟩ | ⟨⟨b1, rfl⟩, ⟨t0, rfl⟩⟩
+  · cases e0 <;> rfl
+  · rfl
+
+open Pyg.DateRange Pyg.Bump in
+/-- `date_range` fails only when a bump does (an instant outside years 1..9999, a malformed text): dates and `None` always resolve -/
+theorem dateRange_total_dates (today : Int) (e0 e1 : Endpoint) (h0 : ∀ b, e0 ≠ .bump b) (h1 : ∀ b, e1 ≠ .bump b) :
+    ∃ p, dateRange today e0 e1 = .ok p := by
+  cases e0 with
+  | bump b => exact absurd rfl (h0 b)
+  | none => cases e1 with
+    | bump b => exact absurd rfl (h1 b)
+    | none => exact ⟨_, rfl⟩
+    | date t => exact ⟨_, rfl⟩
+  | date t0 => cases e1 with
+    | bump b => exact absurd rfl (h1 b)
+    | none => exact ⟨_, rfl⟩
+    | date t => exact ⟨_, rfl⟩
+
+open Pyg.DateRange Pyg.Bump in
+/-- the docstring's own examples: `date_range(2000, '10b') == [dt(2000,1,1), dt(2000,1,17)]` on any day, and
+`drange(2000, '10b', '1b')` = the eleven weekdays of 3 … 17 January 2000 (1 January 2000 is a Saturday) -/
+example : dateRange 0 (.date (mkDate 2000 1 1)) (.bump (.str "10b")) = .ok (mkDate 2000 1 1, mkDate 2000 1 17) := by decide +kernel
+
+/-! ### round k3: `'kb'` = iterate `dt_bump` against the C09 TOKEN model (notes i3 / v3: "still not against the C09 token model") -/
+
+/-- the datetimes the code constructs on the way of a forward business-day step lie between the start and the result -/
+theorem bOffPath_forward (w n : Int) (hw : 0 ≤ w ∧ w < 7) (hn : 1 ≤ n) :
+    ∀ j ∈ Gen.bOffPath w n, 0 ≤ j ∧ j ≤ Gen.bOff w n := by
+  intro j hj
+  unfold Gen.bOffPath at hj
+  unfold Gen.bOff
+  simp only [List.mem_cons, List.not_mem_nil, or_false] at hj ⊢
+  rcases hj with rfl | rfl | rfl <;> (repeat' split) <;> omega
+
+/-- … of a backward step from a weekday: not above the start, at most six days below the result (the week count is applied first) -/
+theorem bOffPath_backward (w n : Int) (hw : 0 ≤ w ∧ w < 5) (hn : n ≤ -1) :
+    ∀ j ∈ Gen.bOffPath w n, Gen.bOff w n - 6 ≤ j ∧ j ≤ 0 := by
+  intro j hj
+  unfold Gen.bOffPath at hj
+  unfold Gen.bOff
+  simp only [List.mem_cons, List.not_mem_nil, or_false] at hj ⊢
+  rcases hj with rfl | rfl | rfl <;> (repeat' split) <;> omega
+
+/-- **`'kb'` (k ≥ 1) from a weekday, against the C09 model's `dt_bump`** (`Bump.bumpCs` on the token text `'<k>b'`, i.e. through the
+tokenizer, `int(…)`, the generated business-day block and the range checks): for `0 ≤ t0 < t1 < MAXUS`, `t0` a weekday, the list
+starts at `t0`, EVERY element is the C09 `dt_bump(·, 'kb')` of its predecessor — the bump is defined there, no hypothesis on it —, all
+lie in `[t0, t1]`, strictly increasing, and the C09 bump of the last element, if it does not overflow, is beyond `t1` -/
+theorem kb_c09 (k : Bump.Tok) (wf : k.WF) (n : Int) (hk : k.value = n ∧ k.unit = Per.b.letter) (hn : 1 ≤ n)
+    (t0 t1 : Int) (h0 : 0 ≤ t0) (h : t0 < t1) (h1 : t1 < Bump.MAXUS) (hwd : wdT t0 < 5) :
+    ∃ l, drange t0 t1 (.period [(n, .b)]) = .ok l ∧ l.head? = some t0 ∧
+      (∀ i x y, l[i]? = some x → l[i + 1]? = some y → Bump.bumpCs k.text x = .ok y) ∧
+      (∀ x, l.getLast? = some x → ∀ y, Bump.bumpCs k.text x = .ok y → t1 < y) ∧
+      (∀ x ∈ l, t0 ≤ x ∧ x ≤ t1) ∧ l.Pairwise (· < ·) := by
+  obtain ⟨l, e1, e2, e3, e4, e5⟩ := kb_forward_range n hn t0 t1 h hwd
+  have htext : [k].flatMap Bump.Tok.text = k.text := by simp
+  have hc09 := fun t ht => dtbump_is_c09 [k] (fun x hx => by simp at hx; subst hx; exact wf) [(n, .b)]
+    (by simp only [TokParts, and_true]; exact hk) t ht
+  simp only [htext] at hc09
+  have hinc : ∀ t, t < dtBump [(n, Per.b)] t := by rw [dtBump_b]; exact bStep_inc n hn
+  refine ⟨l, e1, e3, ?_, ?_, e5, e4⟩
+  · intro i x y hx hy
+    have hi : i + 1 < l.length := by
+      rcases Nat.lt_or_ge (i + 1) l.length with hlt | hge
+      · exact hlt
+      · rw [List.getElem?_eq_none hge] at hy; cases hy
+    have a := (e2.1 i (by omega)).1
+    have b := (e2.1 (i + 1) hi).1
+    rw [hx] at a; rw [hy] at b
+    cases a; cases b
+    have hy1 := (e2.1 (i + 1) hi).2
+    have hx0 := (e5 _ (List.mem_of_getElem? hx)).1
+    have hyy : iter (dtBump [(n, Per.b)]) (i + 1) t0 = dtBump [(n, Per.b)] (iter (dtBump [(n, Per.b)]) i t0) :=
+      iter_succ_outer _ i t0
+    rw [hyy] at hy1 ⊢
+    have hlt := hinc (iter (dtBump [(n, Per.b)]) i t0)
+    refine (hc09 _ (by omega)).2 k n Per.b rfl rfl (by omega) (by omega) (fun _ j hj => ?_)
+    generalize iter (dtBump [(n, Per.b)]) i t0 = X at *
+    have hp := bOffPath_forward (Bump.wdOf X) n (by rw [← wdT_eq]; exact wdT_range X) hn j hj
+    have hv : dtBump [(n, Per.b)] X = X + DAY * Gen.bOff (Bump.wdOf X) n := by
+      rw [dtBump_b]; unfold bStep; rw [bOff_eq_gen, wdT_eq]
+    rw [hv] at hy1
+    unfold Bump.InRange
+    unfold DAY at hy1; unfold Bump.DAYUS
+    constructor <;> omega
+  · intro x hx y hy
+    have hlen : l ≠ [] := by intro e; subst e; simp at hx
+    have hpos : 0 < l.length := by cases l with | nil => exact absurd rfl hlen | cons _ _ => simp
+    have hlast : l[l.length - 1]? = some x := by rw [← List.getLast?_eq_getElem?]; exact hx
+    have a := (e2.1 (l.length - 1) (by omega)).1
+    rw [hlast] at a; cases a
+    have hx0 := (e5 _ (List.mem_of_getElem? hlast)).1
+    have := (hc09 _ (by omega)).1 y hy
+    rw [this, ← iter_succ_outer (dtBump [(n, Per.b)]) (l.length - 1) t0]
+    have e : l.length - 1 + 1 = l.length := by omega
+    rw [e]; exact e2.2
+
+/-- a business-day step lands on a weekday, whatever the start and the count -/
+theorem bStep_weekday (k x : Int) : wdT (bStep k x) < 5 := by
+  have hw := wdT_range x
+  unfold bStep bOff
+  simp only []
+  unfold wdT DAY at *
+  generalize hq : x / 86400000000 = q at *
+  (repeat' split) <;> omega
+
+
+theorem iter_bStep_weekday (k t0 : Int) (hwd : wdT t0 < 5) : ∀ i : Nat, wdT (iter (dtBump [(k, Per.b)]) i t0) < 5
+  | 0 => hwd
+  | i + 1 => by rw [iter_succ_outer, dtBump_b]; exact bStep_weekday k _
+
+/-- mirror image: `'kb'` (k ≤ -1) from a weekday `t0` back to `t1`, a whole number of days apart, `6 days ≤ t1 < t0 < MAXUS` (the code
+applies the week count first: a datetime up to six days before the result is constructed on the way): every element is the C09
+`dt_bump(·, 'kb')` of its predecessor, and that of the last one, if it does not overflow, is before `t1` -/
+theorem kb_backward_c09 (k : Bump.Tok) (wf : k.WF) (n : Int) (hk : k.value = n ∧ k.unit = Per.b.letter) (hn : n ≤ -1)
+    (t0 t1 : Int) (h1 : 6 * DAY ≤ t1) (h : t1 < t0) (h0 : t0 < Bump.MAXUS) (hal : (t1 - t0) % DAY = 0) (hwd : wdT t0 < 5) :
+    ∃ l, drange t0 t1 (.period [(n, .b)]) = .ok l ∧ l.head? = some t0 ∧
+      (∀ i x y, l[i]? = some x → l[i + 1]? = some y → Bump.bumpCs k.text x = .ok y) ∧
+      (∀ x, l.getLast? = some x → ∀ y, Bump.bumpCs k.text x = .ok y → y < t1) ∧
+      (∀ x ∈ l, t1 ≤ x ∧ x ≤ t0) ∧ l.Pairwise (· > ·) := by
+  obtain ⟨l, e1, e2, e3, e4, e5⟩ := kb_backward_range n hn t0 t1 h hal hwd
+  have htext : [k].flatMap Bump.Tok.text = k.text := by simp
+  have hc09 := fun t ht => dtbump_is_c09 [k] (fun x hx => by simp at hx; subst hx; exact wf) [(n, .b)]
+    (by simp only [TokParts, and_true]; exact hk) t ht
+  simp only [htext] at hc09
+  have hD : (0 : Int) ≤ 6 * DAY := by unfold DAY; omega
+  refine ⟨l, e1, e3, ?_, ?_, e5, e4⟩
+  · intro i x y hx hy
+    have hi : i + 1 < l.length := by
+      rcases Nat.lt_or_ge (i + 1) l.length with hlt | hge
+      · exact hlt
+      · rw [List.getElem?_eq_none hge] at hy; cases hy
+    have a := (e2.1 i (by omega)).1
+    have b := (e2.1 (i + 1) hi).1
+    rw [hx] at a; rw [hy] at b
+    cases a; cases b
+    have hy1 := (e2.1 (i + 1) hi).2
+    have hx0 := (e5 _ (List.mem_of_getElem? hx))
+    have hwx := iter_bStep_weekday n t0 hwd i
+    have hyy : iter (dtBump [(n, Per.b)]) (i + 1) t0 = dtBump [(n, Per.b)] (iter (dtBump [(n, Per.b)]) i t0) :=
+      iter_succ_outer _ i t0
+    rw [hyy] at hy1 ⊢
+    generalize iter (dtBump [(n, Per.b)]) i t0 = X at *
+    have hlt : dtBump [(n, Per.b)] X < X := by rw [dtBump_b]; exact bStep_dec n hn X
+    refine (hc09 X (by omega)).2 k n Per.b rfl rfl (by omega) (by omega) (fun _ j hj => ?_)
+    have hwr := wdT_range X
+    have hp := bOffPath_backward (Bump.wdOf X) n (by rw [← wdT_eq]; omega) hn j hj
+    have hv : dtBump [(n, Per.b)] X = X + DAY * Gen.bOff (Bump.wdOf X) n := by
+      rw [dtBump_b]; unfold bStep; rw [bOff_eq_gen, wdT_eq]
+    rw [hv] at hy1
+    unfold Bump.InRange
+    unfold DAY at hy1 h1; unfold Bump.DAYUS
+    constructor <;> omega
+  · intro x hx y hy
+    have hlen : l ≠ [] := by intro e; subst e; simp at hx
+    have hpos : 0 < l.length := by cases l with | nil => exact absurd rfl hlen | cons _ _ => simp
+    have hlast : l[l.length - 1]? = some x := by rw [← List.getLast?_eq_getElem?]; exact hx
+    have a := (e2.1 (l.length - 1) (by omega)).1
+    rw [hlast] at a; cases a
+    have hx0 := (e5 _ (List.mem_of_getElem? hlast)).1
+    have := (hc09 _ (by omega)).1 y hy
+    rw [this, ← iter_succ_outer (dtBump [(n, Per.b)]) (l.length - 1) t0]
+    have e : l.length - 1 + 1 = l.length := by omega
+    rw [e]; exact e2.2
+
+/-- the hypotheses are satisfiable: the token `'2b'` / `'-2b'`, Mon 2000-01-03 ↔ Fri 2000-01-14 -/
+example : (Bump.numTok 2 'b').WF ∧ (Bump.numTok 2 'b').value = 2 ∧ (Bump.numTok 2 'b').unit = Per.b.letter ∧
+    (Bump.numTok (-2) 'b').WF ∧ (Bump.numTok (-2) 'b').value = -2 ∧
+    (6 * DAY ≤ 63082281600000000 + 2 * DAY) ∧ ((63082281600000000 + 2 * DAY - (63082281600000000 + 13 * DAY)) % DAY = 0) ∧
+    wdT (63082281600000000 + 13 * DAY) < 5 := by decide
 
 end Pyg.Props.C10
